@@ -88,6 +88,14 @@ CHECKS = {
              "the harness process and is observed as a crash. The abort-on-double-panic rule itself is Rust runtime behaviour (modelled, not proved).",
         design_ref="DESIGN.md section 7, C11",
         technique="Coq proof (unwinding => silent drop, for all states) + exhaustive crash-matrix co-execution"),
+    "C10": dict(
+        text="Machine-checked theorems (Props/C10.v) about the Layer B model (evaluation cut at its atomic operations), for EVERY schedule, any number of threads and calls: "
+             "the values handed out by the fetch_adds on each pattern counter and on the ordered index are exactly 0..n-1, each once; after joining, counters and ordered index equal "
+             "those of the sequential Layer A run of the same calls; the shared error list is a permutation of all threads' mock-induced panics; a call run atomically IS the Layer A call "
+             "(refinement). Tied to /repo by running the REAL runtime under a baton-passing scheduler at the granularity of every atomic operation and lock (hooks), comparing trace, "
+             "outcomes and verdict with the model on the same schedule (all interleavings of small programs + random ones). Weak-memory effects are outside (SC scheduler).",
+        design_ref="DESIGN.md section 7, C10",
+        technique="Coq proof (invariants over all schedules, sequential-equivalence refinement) + scheduler-controlled co-execution"),
 }
 
 NOT_YET = "check not built yet (work in progress in this session; designed in DESIGN.md section 7)"
